@@ -573,8 +573,9 @@ Section Lex.
   (* Walks the lexer tokens the way parseSeqQLFilter / parseSeqQLSubexpr do (operand position /
      operator position, parenthesis depth) and produces the token-level alphabet of Model.v:
      every field filter becomes TAtom / TText / a parenthesised disjunction; a range is one TAtom;
-     `*` alone at depth 0 is one TAtom; a pipe section ends the token list (ParseSeqQL's final
-     IsEnd check is the RPanic below). operand = true: a sub-expression is expected. *)
+     `*` alone at depth 0 is one TAtom; a (well-formed) pipe section becomes the terminator TPipe,
+     at which the token-level parser folds its accumulators (ParseSeqQL's final IsEnd check is the
+     RPanic below). operand = true: a sub-expression is expected. *)
   Fixpoint glue (fuel : nat) (ts : list ltok) (depth : nat) (operand : bool) : R (list tok) :=
     match fuel with
     | 0 => RFuel
@@ -597,7 +598,7 @@ Section Lex.
           else if is_kw kw_rp t then do l <- glue f r (pred depth) false; ROk (TRP :: l)
           else if is_kw kw_pipe t then
             do rest <- pipes (S (length ts)) ts 0;
-            match rest with [] => ROk [] | _ => RPanic end
+            match rest with [] => ROk [TPipe] | _ => RPanic end
           else RErr
       end
     end.
